@@ -41,6 +41,7 @@ r23=rows(23); n23,m23=len(r23),sum('missed at first' in x for x in r23)
 r24=rows(24); n24,m24=len(r24),sum('missed at first' in x for x in r24)
 r25=rows(25); n25,m25=len(r25),sum('missed at first' in x for x in r25)
 r26=rows(26); n26,m26=len(r26),sum('missed at first' in x for x in r26)
+r27=rows(27); n27,m27=len(r27),sum('missed at first' in x for x in r27)
 def nm(r): return len(r),sum('missed at first' in x for x in r)
 (n1,m1),(n2,m2),(n3,m3),(n4,m4),(n5,m5),(n6,m6),(n7,m7),(n8,m8),(n9,m9)=[nm(r) for r in (r1,r2,r3,r4,r5,r6,r7,r8,r9)]
 own=open('/verif/mutants/RESULTS.txt').read().strip().split('\n')
@@ -324,6 +325,13 @@ checks stood, %d missed at first.
 | seed | property | detected by (scenario / clause) |
 |---|---|---|
 '''%(n26,n26-m26,m26)+'\n'.join(r26)+'''
+
+**Round 27** (%d changes; the same two-site brief for five codec properties): %d detected as the
+checks stood, %d missed at first.
+
+| seed | property | detected by (scenario / clause) |
+|---|---|---|
+'''%(n27,n27-m27,m27)+'\n'.join(r27)+'''
 
 What changed in response, as a rule rather than case by case: every property whose code handles a
 length, a count or an index now has a *scale* scenario next to its small-scope product, in which
